@@ -176,6 +176,7 @@ func runC15(c *Ctx) {
 	c.R.Rule(ra, "every write in package data targets storage allocated in the same activation; exported operations have an empty write summary on receiver/arguments", 8)
 	c.R.Rule(rb, "exported operations return no raw slice/map/pointer aliasing receiver or argument storage", 1)
 	c.R.Rule(rc, "no library function outside init writes memory reachable from data.EmptyIntSet / data.EmptyIntMap", 1)
+	c.R.Rule("R15d map-entries-copied-whatever-their-value", "in package data no map entry is written under a condition on a value read from a map: clone/Inc/Filter decide by key membership only (a model map keeps entries whatever their value)", 2)
 	a := c.Own()
 	if !a.Converged() {
 		c.R.Undecided(ra, "fixpoint", "-", "-", "ownership analysis did not converge")
@@ -204,6 +205,7 @@ func runC15(c *Ctx) {
 			continue
 		}
 		nfun++
+		c.ruleR15d("R15d map-entries-copied-whatever-their-value", fn)
 		c.judgeWrites(ra, fn, all)
 		// R15b
 		if fn.Parent() == nil && fn.Object() != nil && fn.Object().Exported() {
@@ -438,4 +440,60 @@ func (c *Ctx) retained(v ssa.Value, seen map[ssa.Value]bool) ssa.Instruction {
 		}
 	}
 	return nil
+}
+
+// ruleR15d: a map update in package data is never guarded by a test on a VALUE read from a map (only by membership,
+// lengths, nil tests): the operations of an int map copy or keep entries whatever number they hold.
+func (c *Ctx) ruleR15d(rule string, fn *ssa.Function) {
+	var fromMapValue func(v ssa.Value, seen map[ssa.Value]bool) bool
+	fromMapValue = func(v ssa.Value, seen map[ssa.Value]bool) bool {
+		if seen[v] {
+			return false
+		}
+		seen[v] = true
+		switch x := v.(type) {
+		case *ssa.Lookup:
+			_, isMap := x.X.Type().Underlying().(*types.Map)
+			return isMap && !x.CommaOk
+		case *ssa.Extract:
+			switch t := x.Tuple.(type) {
+			case *ssa.Lookup:
+				return x.Index == 0
+			case *ssa.Next:
+				return !t.IsString && x.Index == 2
+			}
+			return false
+		case *ssa.BinOp:
+			return fromMapValue(x.X, seen) || fromMapValue(x.Y, seen)
+		case *ssa.UnOp:
+			return fromMapValue(x.X, seen)
+		case *ssa.Convert:
+			return fromMapValue(x.X, seen)
+		case *ssa.Phi:
+			for _, e := range x.Edges {
+				if fromMapValue(e, seen) {
+					return true
+				}
+			}
+		}
+		return false
+	}
+	for _, b := range fn.Blocks {
+		for _, in := range b.Instrs {
+			mu, ok := in.(*ssa.MapUpdate)
+			if !ok {
+				continue
+			}
+			bad := false
+			for _, cd := range ssax.DominatingConds(b) {
+				if fromMapValue(cd.Val, map[ssa.Value]bool{}) {
+					bad = true
+					c.R.Violation(rule, c.name(fn)+" value-dependent map update", c.name(fn), c.P.InstrPos(mu), "this entry is written only under a condition on a value read from a map ("+cd.Val.String()+"): entries holding some values are dropped or treated differently, whereas a plain map model copies an entry whatever its value")
+				}
+			}
+			if !bad {
+				c.R.Hold(rule, c.name(fn)+" map update @"+c.P.InstrPos(mu), "guarded by membership / structure only")
+			}
+		}
+	}
 }
